@@ -36,6 +36,12 @@ func tBin(k string, a, b *rterm) *rterm {
 		}
 		return &rterm{k: "Const", z: z}
 	}
+	if b.k == "Const" && b.z.Sign() == 0 && (k == "Add" || k == "Sub") {
+		return a
+	}
+	if a.k == "Const" && a.z.Sign() == 0 && k == "Add" {
+		return b
+	}
 	return &rterm{k: k, a: a, b: b}
 }
 
@@ -83,6 +89,10 @@ func cNot(c *rcond) *rcond {
 		return &rcond{k: "True"}
 	case "Not":
 		return c.a
+	case "Lt", "Le", "Eq", "Ne", "Gt", "Ge":
+		d := *c
+		d.k = map[string]string{"Lt": "Ge", "Le": "Gt", "Eq": "Ne", "Ne": "Eq", "Gt": "Le", "Ge": "Lt"}[c.k]
+		return &d
 	}
 	return &rcond{k: "Not", a: c}
 }
@@ -170,6 +180,7 @@ type rwalker struct {
 	loops   int
 	oracles map[string]int
 	extra   *[]*rfunc // synthetic functions (closures) discovered while walking
+	nonNil  map[string]bool // map entries assigned a fresh &T{} in the current block
 }
 
 func (rw *rwalker) unk(what string, n ast.Node) *rev {
@@ -482,6 +493,24 @@ func (rw *rwalker) resolveCall(c *ast.CallExpr) (*rfunc, int, ast.Expr) {
 				}
 				if _, ok := rw.p.imports[id.Name]; ok {
 					if _, g := rw.p.gvars[id.Name]; !g {
+						return nil, mForeign, nil
+					}
+				}
+			}
+		}
+		// pkg.Var.Method(...) of an imported package
+		root := f.X
+		for {
+			if se, ok := stripParens(root).(*ast.SelectorExpr); ok {
+				root = se.X
+				continue
+			}
+			break
+		}
+		if rid, ok := stripParens(root).(*ast.Ident); ok && root != f.X {
+			if _, v := rw.vars[rid.Name]; !v {
+				if _, imp := rw.p.imports[rid.Name]; imp {
+					if _, g := rw.p.gvars[rid.Name]; !g {
 						return nil, mForeign, nil
 					}
 				}
